@@ -24,6 +24,7 @@ CHECKS = {
     "C11": "c11",
     "C12": "c12",
     "C13": "c13",
+    "C14": "c14",
     "C15": "c15",
     "C16": "c16",
     "C17": "c17",
